@@ -7,12 +7,12 @@
 import KiraModel.Exec.SuiteParam
 import KiraModel.Model.Clock
 import KiraModel.Model.ClockSys
+import KiraModel.Model.SoundCore
+import KiraModel.Model.Track
 import KiraModel.Model.Conc.ClockShared
 
 namespace K.Exec.Clock
 open K K.Proto K.Conc
-
-def clockFuel : Nat := 1048576
 
 def b01 (b : Bool) : String := if b then "1" else "0"
 
@@ -38,6 +38,14 @@ def clockStep (st : ClockSuiteState) (tok : List String) : Option (ClockSuiteSta
       let v ← parseValue codecCs v
       let c := Clock.new v
       pure ({ st with c := some c }, showClock c)
+  -- a fresh clock at `v` ticks per second, started, one update of 1 s: the timer is exactly `v`
+  -- (the harness compares kira's result with the tick loop the code used to run)
+  | ["tick", v] => do
+      let v ← f64? v
+      let c0 := ((Clock.new (.fixed (.ticksPerSecond v))).hStart).onStartProcessing
+      let (c', r) := c0.update 1.0 Info.empty
+      let rs := match r with | none => "-" | some n => toString n
+      pure (st, s!"{rs} {showClockState c'}")
   | _ => do
     let c ← st.c
     match tok with
@@ -51,16 +59,69 @@ def clockStep (st : ClockSuiteState) (tok : List String) : Option (ClockSuiteSta
     | ["osp"] => let c := c.onStartProcessing; pure ({ st with c := some c }, showClock c)
     | ["update", dt] => do
         let dt ← f64? dt
-        match c.update clockFuel dt st.info.toInfo with
-        | none => pure (st, "fault hang")
-        | some (c', r) =>
-          let rs := match r with | none => "-" | some n => toString n
-          pure ({ st with c := some c' }, s!"{rs} {showClock c'}")
+        let (c', r) := c.update dt st.info.toInfo
+        let rs := match r with | none => "-" | some n => toString n
+        pure ({ st with c := some c' }, s!"{rs} {showClock c'}")
     | _ => none
 
 /-! ### suite `clocksys` -/
 
+/-- a silent, looping static sound on the main track as far as its life cycle goes (`qplay`): the `SoundCore` of
+    Model/SoundCore.lean, its unread pause / resume commands, "unloaded by its track" -/
+structure QSound where
+  core : SoundCore Float := SoundCore.new .immediate none
+  cmdPause : Option (Tween Float) := none
+  cmdResume : Option (StartTime Float × Tween Float) := none
+  unloaded : Bool := false
+
+/-- what the main track's `on_start_processing` does with one of its sounds: `sounds.remove_and_add(|s| s.finished())`,
+    then `StaticSound::on_start_processing` → `read_commands` (pause, then resume).
+    mirrors: track/main.rs::MainTrack::on_start_processing, sound/static_sound/sound.rs::StaticSound::read_commands -/
+def QSound.onStart (q : QSound) : QSound :=
+  if q.unloaded then q
+  else if q.core.finished then { q with unloaded := true }
+  else
+    let c1 := match q.cmdPause with | some tw => q.core.pause tw | none => q.core
+    let c2 := match q.cmdResume with | some c => c1.resume c.1 c.2 | none => c1
+    { q with core := c2, cmdPause := none, cmdResume := none }
+
+/-- the gating prefix of `StaticSound::process` for one chunk (`dtc = dt * out.len()`) -/
+def QSound.chunk (q : QSound) (dtc : Float) (info : Info Float) : QSound :=
+  if q.unloaded then q else { q with core := (q.core.gate dtc info).1 }
+
+/-- an empty sub-track of the main track as far as its life cycle goes (`track`) -/
+structure QTrack where
+  psm : Psm Float := Psm.new none
+  /-- `TrackShared::state` -/
+  pubState : PlaybackState := .playing
+  cmdPause : Option (Tween Float) := none
+  cmdResume : Option (StartTime Float × Tween Float) := none
+
+/-- mirrors: track/sub.rs::Track::read_commands (pause, then resume; each publishes the state) -/
+def QTrack.onStart (t : QTrack) : QTrack :=
+  let t1 := match t.cmdPause with
+    | some tw => let m := t.psm.pause tw; { t with psm := m, pubState := m.playbackState, cmdPause := none }
+    | none => t
+  match t1.cmdResume with
+  | some c => let m := t1.psm.resume c.1 c.2; { t1 with psm := m, pubState := m.playbackState, cmdResume := none }
+  | none => t1
+
+/-- "update playback state" of track/sub.rs::Track::process for one chunk (a track never stays Stopped:
+    `Trk.pausedIfStopped`) -/
+def QTrack.chunk (t : QTrack) (dtc : Float) (info : Info Float) : QTrack :=
+  let u := t.psm.update dtc info
+  if u.2 then
+    let m := Trk.pausedIfStopped u.1
+    { t with psm := m, pubState := m.playbackState }
+  else { t with psm := u.1 }
+
+/-- mirrors: track.rs::TrackShared::state ("tracks are never stopping or stopped") -/
+def QTrack.handleState (t : QTrack) : Nat :=
+  if t.pubState.toNat ≤ 4 then t.pubState.toNat else 2
+
 structure SysSuiteState where
+  qs : List QSound := []
+  ks : List QTrack := []
   s : Sys Float := Sys.empty
   ibs : Nat := 1
   sr : Nat := 1
@@ -109,11 +170,13 @@ def runChunks (st : SysSuiteState) : List Nat → List String → Option (SysSui
   | [], acc => some (st, acc.reverse)
   | n :: rest, acc =>
     let dt : Float := (1.0 / Float.ofNat st.sr) * Float.ofNat n
-    match st.s.chunk clockFuel dt with
+    match st.s.chunk dt with
     | none => none
     | some s' =>
       let started := markStarted st.started s'.waiters st.frame
-      let st' := { st with s := s', started := started, frame := st.frame + n }
+      let info := s'.mixInfo
+      let st' := { st with s := s', started := started, frame := st.frame + n,
+                           qs := st.qs.map (fun q => q.chunk dt info), ks := st.ks.map (fun t => t.chunk dt info) }
       runChunks st' rest (spyLine st s' :: acc)
 
 /-- frames between a static sound passing its start gate and its first non-zero output (none:
@@ -138,13 +201,13 @@ def showHandles (st : SysSuiteState) : String :=
   String.intercalate "," items
 
 def sysEv (st : SysSuiteState) (e : Ev Float) : Option SysSuiteState :=
-  (st.s.step clockFuel e).map (fun s => { st with s := s })
+  (st.s.step e).map (fun s => { st with s := s })
 
 def clockSysStepCore (st : SysSuiteState) (tok : List String) : Option (SysSuiteState × String) :=
   match tok with
   | ["mgr", ibs, sr] => do
       let ibs ← nat? ibs; let sr ← nat? sr
-      pure ({ ibs := ibs, sr := sr }, "ok")
+      pure ({ ibs := ibs, sr := sr : SysSuiteState }, "ok")
   | ["clock", v] => do
       let v ← parseValue codecCs v
       let st' ← sysEv st (.addClock v)
@@ -183,13 +246,31 @@ def clockSysStepCore (st : SysSuiteState) (tok : List String) : Option (SysSuite
       let start ← parseStart start
       let st' ← sysEv st (.play start)
       pure ({ st' with started := st.started ++ [none] }, "ok")
+  | ["qplay"] => pure ({ st with qs := st.qs ++ [{}] }, "ok")
+  | ["track"] => pure ({ st with ks := st.ks ++ [{}] }, "ok")
+  | ["q.pause", j, tw] => do
+      let j ← nat? j; let tw ← parseTween tw; let q ← st.qs[j]?
+      pure ({ st with qs := st.qs.set j { q with cmdPause := some tw } }, toString q.core.shared.toNat)
+  | ["q.resume", j, start, tw] => do
+      let j ← nat? j; let start ← parseStart start; let tw ← parseTween tw; let q ← st.qs[j]?
+      pure ({ st with qs := st.qs.set j { q with cmdResume := some (start, tw) } }, toString q.core.shared.toNat)
+  | ["k.pause", j, tw] => do
+      let j ← nat? j; let tw ← parseTween tw; let t ← st.ks[j]?
+      pure ({ st with ks := st.ks.set j { t with cmdPause := some tw } }, toString t.handleState)
+  | ["k.resume", j, start, tw] => do
+      let j ← nat? j; let start ← parseStart start; let tw ← parseTween tw; let t ← st.ks[j]?
+      pure ({ st with ks := st.ks.set j { t with cmdResume := some (start, tw) } }, toString t.handleState)
   | ["cb", frames] => do
       let frames ← nat? frames
-      let st1 ← sysEv st .startProcessing
+      let st0 ← sysEv st .startProcessing
+      let st1 := { st0 with qs := st0.qs.map QSound.onStart, ks := st0.ks.map QTrack.onStart }
       match runChunks st1 (chunkSizes st1.ibs frames) [] with
       | none => pure (st, "fault hang")
       | some (st2, lines) =>
-        pure (st2, s!"{String.intercalate " " lines} | {showHandles st2} | {showSounds st2}")
+        let life := if st2.qs.isEmpty && st2.ks.isEmpty then "" else
+          " | q" ++ String.intercalate "," (st2.qs.map (fun q => toString q.core.shared.toNat)) ++
+          " | k" ++ String.intercalate "," (st2.ks.map (fun t => toString t.handleState))
+        pure (st2, s!"{String.intercalate " " lines} | {showHandles st2} | {showSounds st2}{life}")
   | _ => none
 
 /-- decode a `replay <ops joined by '~', blanks as '_'> :: comment` line into tokenised ops -/
@@ -277,9 +358,8 @@ def tearStepCore (st : TearState) (tok : List String) : Option (TearState × Str
     match tok with
     | ["adv", dt] => do
         let dt ← f64? dt
-        match c.update clockFuel dt Info.empty with
-        | none => pure (st, "fault hang")
-        | some (c', _) => pure ({ st with c := some c' }, showClock c')
+        let (c', _) := c.update dt Info.empty
+        pure ({ st with c := some c' }, showClock c')
     | ["pub"] => do
         let (c, cs) ← runSched c st.cs [.audA, .audB] [] []
         pure ({ c := some c, cs := cs }, showClock c)
